@@ -266,7 +266,8 @@ func (s *Server) sendPutResponse(stream protoobject.ObjectService_PutServer, res
 		resp = new(protoobject.PutResponse)
 	}
 	if err != nil {
-		resp.MetaHeader = s.makeResponseMetaHeader(util.ToStatus(err), req.MetaHeader)
+		// req is nil if the stream ended before any message
+		resp.MetaHeader = s.makeResponseMetaHeader(util.ToStatus(err), req.GetMetaHeader())
 	}
 
 	resp.VerifyHeader = util.SignResponseIfNeeded(&s.signer, resp, req)
